@@ -13,13 +13,7 @@ def explore(ctx):
 
 
 def replay(ctx, rec):
-    import harness, pipeline
-    asm = harness.real_asm()
-    inp = rec['input']
-    real = pipeline.run_real(asm, inp['source'], inp.get('compress', False))
-    if real['status'] != 'OK':
-        return True
-    return layout_engine.replay_C04(ctx, inp, real, rec)
+    return layout_engine.replay(ctx, 'C04', rec)
 
 
 CLAIM = {'text': 'C04_rule_sound: for the GENERATED criteria table, predicate semantics and construction rows (regenerated per run), whatever rule the first-match selection picks for an item -- any register spelling, ANY integer immediate -- the compressed operands are legal (Spec/Legal) and name an instruction whose Spec expansion (expand_c) has the same meaning as the 32-bit instruction (equal, or add rd,x0,rs for addi rd,rs,0): symbolic reduction of the generated pred_sem to numeric views + in-kernel sweep of the complete operand box of each of the 29 rules. C04_rule_semantics: the structural same-meaning test implies equality of the Spec step semantics from every state (sem_equiv; 4000-case analysis). C04_rule_encodes pushes this through the generated encoders with C01/C02/C06: the c.* encoder accepts, decode16 is legal, decode32 of the original word has the same meaning. C04_decided_on_final_value: rules only see immediates that can no longer change. C04_data_untouched: non-code items pass the compression passes unchanged. Falsifier: both modes of generated programs decoded and compared per source line with the extracted Spec, operands on both sides of every RVC operand-set edge, label-dependent immediates, compressible second halves of li/call/tail.', 'note': 'Trusted: as C03; the glue from item fields (strings) to numeric operands is by C04_spelling + correspondence, the premise wf_view (an item has only the fields of its mnemonic) is what the real parser produces (correspondence-tested). The step semantics is Spec/Sem.v (single hart, no traps).', 'technique': 'Coq proof: symbolic link to generated predicate semantics + exhaustive in-kernel sweeps per rule; two-mode differential falsifier with Spec decoding', 'design': '6/C04'}
